@@ -7,6 +7,17 @@ import grun
 
 def gather(args):
     g = grun.run_grammar(args.tier, only=[args.only] if args.only else None)
+    # evidence: the production bodies that were executed from MIR (one function per production, plus the helpers they call)
+    try:
+        import gprod
+        prog = E.prog()
+        prods = gprod.productions(prog)
+        for n, r in g['results'].items():
+            if r.get('status') == 'ok' and n in prods:
+                body = prods[n][1]
+                prog.encoded.setdefault(body.name, len(r.get('paths', [])))
+    except Exception:
+        pass
     return g
 
 
